@@ -28,11 +28,25 @@ EncCase(r) ==
            THEN LET u == ParseNoReplace(r.untyped.ok) IN
                 IF u.ok /\ u.vals = r.rawvals THEN TRUE ELSE Bad("enc:untyped_values_differ")
            ELSE TRUE)
+\* C06: totality (no panic in any entry point or configuration) and the allocation bound under a quota
+\*   peak <= C0 + C1 * |input| + C2 * q      (constants calibrated on the pinned tree, see DESIGN.md)
+C0 == 8388608
+C1 == 256
+C2 == 64
+NoPanic(o, what) == IF "panic" \in DOMAIN o THEN Bad("panic:" \o what \o "@" \o o.panic) ELSE TRUE
+Bounded(o, len, what) == IF o.d >= 0 /\ "peak" \in DOMAIN o /\ o.peak > C0 + C1 * len + C2 * o.d THEN Bad("alloc_bound:" \o what) ELSE TRUE
+FuzzCase(r) ==
+  /\ (IF "skip" \in DOMAIN r.real THEN TRUE ELSE DecCase(r))
+  /\ NoPanic(r.any, "from_bytes")
+  /\ \A i \in DOMAIN r.runs : NoPanic(r.runs[i], "untyped") /\ Bounded(r.runs[i], r.len, "untyped")
+  /\ \A i \in DOMAIN r.native : NoPanic(r.native[i], "native") /\ Bounded(r.native[i], r.len, "native")
+  /\ \A i \in DOMAIN r.small : NoPanic(r.small[i], "small_stack")
 Next == /\ l <= Len(Rec)
         /\ LET r == Rec[l] IN
            IF "abort" \in DOMAIN r THEN Bad("abort")
            ELSE CASE r.kind = "dec" -> DecCase(r)
                   [] r.kind = "enc" -> EncCase(r)
+                  [] r.kind = "fuzz" -> FuzzCase(r)
         /\ l' = l + 1
 Spec == Init /\ [][Next]_l
 Post == PrintT(<<"CONSUMED", TLCGet("stats").diameter - 1, Len(Rec)>>)
